@@ -59,7 +59,7 @@ NWORKERS = min(16, os.cpu_count() or 4)
 BOOT_LIMIT = 300.0
 ACT_LIMIT = 120.0
 CALL_LIMIT = 2.0
-DEEP_CAP = 24000       # length-3 behaviours replayed in the thorough tier
+DEEP_CAP = 150000      # length-3 behaviours replayed in the thorough tier (seeded sample above that)
 
 # --------------------------------------------------------------------------
 # Python mirror of SecureOps!PermittedOs.  Used only to *classify* natives as
@@ -1185,8 +1185,6 @@ def extract(root, tier, seed):
         "assignForms": [f for f, _t in ASSIGN_FORMS],
         "secureModes": [True, False],
     }
-    if has_run is False and "run" in data["natives"]:
-        pass
     side = {"classmap": classmap, "forbidden": forbidden, "ids": sorted(natives), "modules": mods,
             "bootmod": bootmod, "bootsym": "", "probe": probe, "natives": data["natives"],
             "rows": natives, "info": info, "insecure": insecure, "touching": touching,
@@ -1206,7 +1204,6 @@ def pick_bootsym(side):
 
 
 def act_str(side, act):
-    prog, desc, um = None, None, None
     a = act["a"]
     if a == "bind":
         al = {"none": "", "own": f", 'a_{act['id']}'", "flag": f", '{FLAG}'"}[act["alias"]]
